@@ -143,12 +143,14 @@ def write_and_check(ctx, r: Runner, fmt: str, rep: dict, tabs):
         doc.write(b, fmt="bin")
         tags = dxfparse.parse_binary(b.getvalue())
     problems = dxfparse.check_file(tags, version, minv, req, hmin)
-    unlinked_xd = {"%X" % h for h, e in r.ents.items() if e.is_alive and e.dxf.owner is None and e.has_extension_dict}
+    # F20: the extension dictionary of an entity that was unlinked (and is gone after a reload) stays in OBJECTS
+    unlinked_xd = {"%X" % h for h, e in r.ents.items()
+                   if (not e.is_alive) or (e.dxf.owner is None and e.has_extension_dict)}
     for p in problems[:5]:
         kind = p.split(":")[0].split("#")[0].strip()[:40]
         m = re.search(r"DICTIONARY #\w+ in OBJECTS: owner (\w+) not in file", p)
         if m and m.group(1) in unlinked_xd:
-            ctx.fail(f"unlinked-entity-xdict/{r.version}/{fmt}", f"{r.version} {fmt}: {p} (the owner is a live entity unlinked from its layout)", rep)
+            ctx.fail(f"unlinked-entity-xdict/{r.version}/{fmt}", f"{r.version} {fmt}: {p} (the owner is an entity that was unlinked from its layout)", rep)
             continue
         if re.search(r": reactor \w+ not in file", p):
             ctx.fail(f"dangling-reactor/{r.version}/{fmt}", f"{r.version} {fmt}: {p}", rep)
